@@ -18,8 +18,12 @@ def main():
     prop, jobf, outf = sys.argv[1:4]
     job = json.load(open(jobf))
     g = apilib.import_gufo(job["so"], job["repo"])
-    mod = importlib.import_module("lib.props." + prop)
-    res = mod.api_main(g, job)
+    if prop == "pylayer":
+        import pylayer
+        res = {"pylayer": [pylayer.run_case(g, cs) for cs in job["pylayer_cases"]]}
+    else:
+        mod = importlib.import_module("lib.props." + prop)
+        res = mod.api_main(g, job)
     with open(outf, "w") as f:
         json.dump(res, f)
 
